@@ -282,6 +282,91 @@ def edit_prefix_crashes(ctx, stg, driver, upath, cases):
     return n, failures
 
 
+BRANCH_CRASH_CASES = [
+    ("rename", ["branch", "--rename", "work", "moved"]),
+    ("clone", ["branch", "--clone", "copy"]),
+    ("create", ["branch", "--create", "fresh"]),
+    ("delete-other", ["branch", "--delete", "--force", "side"]),
+    ("cleanup-other", ["branch", "--cleanup", "--force", "side"]),
+]
+
+
+def branch_crash_probes(ctx, stg):
+    """`stg branch` sub-commands write refs outside any transaction, some of them through an external
+    `git branch`: the process is killed just before and just after every git invocation of the
+    command; afterwards every patch of every stack that existed (and was not being deleted) is
+    still a patch of an existing branch whose stack opens, and `stg repair` works there"""
+    failures = []
+    n = 0
+
+    def build(r):
+        r.init_repo()
+        r.stg(stg, ["init"])
+        for b, k in (("side", 2), ("work", 3)):
+            r.git(["checkout", "-q", "-b", b, "main"])
+            r.stg(stg, ["init"])
+            for i in range(k):
+                r.stg(stg, ["new", "-m", "%s %d" % (b, i), "%s%d" % (b[0], i)])
+                r.write("%s-%d.txt" % (b, i), "%d\n" % i)
+                r.git(["add", "-A"])
+                r.stg(stg, ["refresh"])
+            if b == "work":
+                r.stg(stg, ["pop"])
+
+    def stacks(r):
+        out = {}
+        for line in r.git(["for-each-ref", "--format=%(refname)", "refs/heads/"]).stdout.split():
+            b = line[len("refs/heads/"):]
+            p = r.stg(stg, ["series", "--noprefix", "-a", "--branch", b])
+            out[b] = (p.returncode, p.stdout.split())
+        return out
+
+    for cname, argv in BRANCH_CRASH_CASES:
+        with repo.Scratch("c04b") as r:
+            build(r)
+            shim = rigs.GitShim(r)
+            p = r.stg(stg, argv, env=shim.env())
+            ncalls = len(shim.calls())
+            shim.remove()
+        for k in range(1, ncalls + 1):
+            for mode in ("before", "after"):
+                with repo.Scratch("c04b") as r:
+                    build(r)
+                    want = {b: set(v[1]) for b, v in stacks(r).items()}
+                    shim = rigs.GitShim(r)
+                    env = shim.env(kill_before=k) if mode == "before" else shim.env(kill_after=k)
+                    p = r.stg(stg, argv, env=env)
+                    shim.remove()
+                    n += 1
+                    for lock in [os.path.join(dp, f) for dp, _, fs in os.walk(os.path.join(r.path, ".git")) for f in fs
+                                 if f.endswith(".lock")]:
+                        os.remove(lock)               # a killed git leaves its lock file: the user removes it
+                    have = stacks(r)
+                    probs = []
+                    survivors = set()
+                    for b, (rc, names) in have.items():
+                        survivors |= set(names)
+                    for b, names in want.items():
+                        if cname.endswith("-other") and b == "side":
+                            continue                  # the branch being deleted / cleaned up may lose its stack
+                        if not names <= survivors:
+                            probs.append("patches %r of branch %r are patches of no existing branch any more"
+                                         % (sorted(names - survivors), b))
+                    cur = r.git(["symbolic-ref", "-q", "--short", "HEAD"], check=False).stdout.strip()
+                    if cur:
+                        rc_series = r.stg(stg, ["series"]).returncode
+                        if rc_series != 0:
+                            probs.append("stg series fails on the current branch %r" % cur)
+                        if have.get(cur, (1, []))[1]:
+                            rp = r.stg(stg, ["repair"])
+                            if rp.returncode != 0:
+                                probs.append("stg repair fails on %r: %s" % (cur, rp.stderr.strip()[-120:]))
+                    if probs:
+                        failures.append({"case": "branch-" + cname, "cmd": argv, "kill": "%s git invocation %d" % (mode, k),
+                                         "exit": p.returncode, "problems": probs})
+    return n, failures
+
+
 def run_c04(ctx):
     stg, driver, upath, results, broken, disagreements = base_run(ctx, ["crash"])
     had = False
@@ -302,6 +387,12 @@ def run_c04(ctx):
         had = True
         common.violation(ctx, {"obligation": "direct-oracle:C04:ref-edit-prefix", **f}, found_input=True,
                          hint="prefix-")
+    nb, fb = branch_crash_probes(ctx, stg)
+    ctx.coverage["branch_admin_crashes"] = nb
+    ctx.coverage["evaluations"] += nb
+    for f in fb[:4]:
+        had = True
+        common.violation(ctx, {"obligation": "direct-oracle:C04:branch-admin-crash", **f}, found_input=True, hint="branch-")
     ctx.assumptions += [
         "crash points are program points and prefixes of the ordered single-ref operations; SIGKILL inside one "
         "gix lock-file rename / inside a git subprocess (stale *.lock files, partially written objects) is runtime "
@@ -311,6 +402,66 @@ def run_c04(ctx):
 
 
 # ----------------------------------------------------------------------------- C19
+
+def group_interrupt_probes(stg):
+    """one Ctrl-C reaches the whole foreground process group: stg AND the git child it is running.  With
+    stgit.gpgsign the stack state commit is written by `git commit-tree -S` INSIDE the critical section;
+    the interrupt is delivered at every git invocation of pop / push / goto and the child dies of it.
+    Afterwards branch ref, stack head, index and work tree all show the old state (and stg reported a
+    failure) or all show the new one."""
+    fails = []
+    n = 0
+    setup = [["new", "-m", "a", "a"], ["!write", "f.txt", "1\n"], ["refresh"], ["new", "-m", "b", "b"],
+             ["!write", "g.txt", "2\n"], ["refresh"]]
+
+    def prepare(r):
+        proto.setup_case(r, stg, setup)
+        gpg = os.path.join(r.home, "fakegpg")
+        with open(gpg, "w") as f:
+            f.write("#!/bin/sh\ncat >/dev/null\nprintf 'fake\\n[GNUPG:] SIG_CREATED D 1 8 00 0 FAKE\\n' >&2\n"
+                    "printf -- '-----BEGIN PGP SIGNATURE-----\\n\\nfake\\n-----END PGP SIGNATURE-----\\n'\n")
+        os.chmod(gpg, 0o755)
+        r.git(["config", "gpg.program", gpg])
+        r.git(["config", "stgit.gpgsign", "true"])
+
+    def state(r):
+        head = r.rev("HEAD")
+        sj = proto.stack_json_of(r, r.rev("refs/stacks/main")) or {}
+        return {"head": head, "stack_head": sj.get("head"), "applied": sj.get("applied"),
+                "index": r.git(["write-tree"], check=False).stdout.strip(), "head_tree": r.rev("HEAD^{tree}"),
+                "status": r.git(["status", "--porcelain"]).stdout.strip()}
+
+    for cmd in (["pop"], ["goto", "a"], ["pop", "-a"]):
+        with repo.Scratch("c19g") as r:
+            prepare(r)
+            shim = rigs.GitShim(r)
+            r.stg(stg, cmd, env=shim.env())
+            ncalls = len(shim.calls())
+            shim.remove()
+        for k in range(1, ncalls + 1):
+            with repo.Scratch("c19g") as r:
+                prepare(r)
+                before = state(r)
+                shim = rigs.GitShim(r)
+                p = r.stg(stg, cmd, env=shim.env(int_group=k))
+                shim.remove()
+                n += 1
+                after = state(r)
+                probs = []
+                if after["head"] != after["stack_head"]:
+                    probs.append("branch head and recorded stack head differ")
+                if after["index"] != after["head_tree"] or after["status"]:
+                    probs.append("index / work tree do not show the tree of the branch head (status %r)" % after["status"])
+                moved = after["head"] != before["head"] or after["applied"] != before["applied"]
+                if p.returncode == 0 and not moved:
+                    probs.append("exit status 0 although nothing was published")
+                if "rolled back" in p.stderr and moved:
+                    probs.append("reports a roll-back although the new state was published")
+                if probs:
+                    fails.append({"case": "group-interrupt", "cmd": cmd, "point": "git invocation %d" % k,
+                                  "exit": p.returncode, "problems": probs, "stderr": p.stderr[-200:]})
+    return n, fails
+
 
 def run_c19(ctx):
     stg, driver, upath, results, broken, disagreements = base_run(ctx, ["sigint"])
@@ -333,6 +484,12 @@ def run_c19(ctx):
             if bad:
                 had = True
                 common.violation(ctx, replay_doc(r, rec, bad), found_input=True, hint="oracle-")
+    ng, fg = group_interrupt_probes(stg)
+    ctx.coverage["group_interrupts"] = ng
+    ctx.coverage["evaluations"] += ng
+    for f in fg[:3]:
+        had = True
+        common.violation(ctx, {"obligation": "direct-oracle:C19:group-interrupt", **f}, found_input=True, hint="group-")
     ctx.assumptions += ["signal delivery below phase granularity (inside one system call) is runtime behaviour "
                         "the model cannot exhibit (partial)"]
     finish_run(ctx, broken, disagreements, had)
@@ -403,6 +560,53 @@ def all_schedules():
     for combo in itertools.combinations(range(6), 3):
         out.append([i in combo for i in range(6)])       # True = second process
     return out
+
+
+def extmods_race(stg):
+    """the other publication path: on a branch moved by plain git every command first records an
+    "external modifications" entry (Stack::log_external_mods), outside the closing reference
+    transaction.  Process A is held between reading refs/stacks/<b> and publishing that entry
+    while process B runs to completion: A must then fail without effect, or both effects must be in
+    the stack; the log stays one chain that contains B's state."""
+    fails = []
+    n = 0
+    for cmd_a, cmd_b, name_a, name_b in ((["new", "-m", "one", "n1"], ["new", "-m", "two", "n2"], "n1", "n2"),
+                                         (["rename", "a", "z"], ["new", "-m", "two", "n2"], "z", "n2"),
+                                         (["new", "-m", "one", "n1"], ["hide", "a"], "n1", "hidden:a")):
+        with repo.Scratch("c11x") as r:
+            proto.setup_case(r, stg, [["new", "-m", "a", "a"], ["!write", "f.txt", "1\n"], ["refresh"], ["pop"],
+                                      ["!write", "hot.txt", "fix\n"], ["!git", "commit", "-q", "-m", "plain git commit"]])
+            pd = rigs.PointDir(r, "xa")
+            pa, reached = rigs.start_paused(r, stg, cmd_a, pd, "extmods.prev_read")
+            if not reached:
+                rigs.finish(pa)
+                fails.append({"why": "process A never reached extmods.prev_read (harness)", "cmd1": cmd_a})
+                continue
+            pb = r.stg(stg, cmd_b)
+            b_state = r.rev("refs/stacks/main")
+            rigs.release(pd, "extmods.prev_read")
+            rc_a, out_a, err_a = rigs.finish(pa)
+            pd.remove()
+            n += 1
+            names = r.stg(stg, ["series", "--noprefix", "-a"]).stdout.split()
+            names += ["hidden:" + h for h in r.stg(stg, ["series", "--noprefix", "-H"]).stdout.split()]
+            chain, so = [], r.rev("refs/stacks/main")
+            while so and len(chain) < 30:
+                chain.append(so)
+                sj = proto.stack_json_of(r, so)
+                so = sj.get("prev") if sj else None
+            rec = {"pair": "extmods-race", "cmd1": cmd_a, "cmd2": cmd_b, "exit1": rc_a, "exit2": pb.returncode,
+                   "names": names, "stderr1": err_a[-200:]}
+            ea, eb = name_a in names, name_b in names
+            if rc_a == 0 and pb.returncode == 0 and not (ea and eb):
+                fails.append({**rec, "why": "both commands succeeded but the stack has the effect of only one (lost update)"})
+            elif rc_a != 0 and ea:
+                fails.append({**rec, "why": "the command that failed left its effect in the stack"})
+            elif pb.returncode == 0 and b_state not in chain:
+                fails.append({**rec, "why": "the state published by the other command is not in the log any more"})
+            elif rc_a != 0 and r.git(["status", "--porcelain"]).stdout.strip():
+                fails.append({**rec, "why": "the command that failed left index / work tree changed"})
+    return n, fails
 
 
 def run_c11(ctx):
@@ -484,9 +688,17 @@ def run_c11(ctx):
         else:
             common.violation(ctx, {"obligation": "direct-oracle:C11", "why": rec.get("why", "lost update"), **rec},
                              found_input=True, hint="oracle-")
+    nx, fx = extmods_race(stg)
+    n += nx
+    ctx.obligations += 1
+    if not fx:
+        ctx.discharged += 1
+    for rec in fx[:3]:
+        common.violation(ctx, {"obligation": "direct-oracle:C11:extmods-race", **rec}, found_input=True, hint="race-")
     for rec in disagreements[:3]:
         if not ctx.violations:
             common.violation(ctx, {"obligation": "correspondence:C11:schedule", **rec}, found_input=False, hint="corr-")
+    ctx.coverage["extmods_race_runs"] = nx
     ctx.coverage.update({
         "evaluations": n, "distinct_nontrivial": len(all_schedules()) * len(pairs),
         "rule": "all 20 interleavings of the phases (stack loaded / previous state read / refs published) of two "
